@@ -74,6 +74,12 @@ func VerifRace(kv map[string]string) string {
 			_ = w.lbc.configuration.GetResourcesWithFilter(resourceFilter{VirtualServers: true})
 			_ = w.lbc.configuration.FindResourcesForService("d", "s1")
 		})
+		// a second reader beside the worker's own reads (status syncs for the external service / IngressLink run concurrently with
+		// the leader callback): readers must be able to overlap without writing anything
+		observer(func() {
+			_ = w.lbc.configuration.GetResources()
+			_ = w.lbc.configuration.GetResourcesWithFilter(resourceFilter{TransportServers: true})
+		})
 	case "informer":
 		var n atomic.Int64
 		observer(func() {
